@@ -251,11 +251,22 @@ def fixed_case(draw):
         vec[k % n_pair] += 0.0625 * (k + 1)     # distinct models by construction
         models.append(vec)
     method = draw(st.sampled_from(FIXED_METHODS))
-    return dict(n_cond=n_cond, data=data, models=models, method=method)
+    # the data object may come from an earlier library call that leaves repeated or non-contiguous
+    # 'index' values behind (a resample of a larger object, a subset): every RDM in it is a subject
+    picks = None
+    if n_rdm >= 3 and draw(st.integers(0, 2)) == 0:
+        picks = draw(st.lists(st.integers(0, n_rdm - 1), min_size=n_rdm, max_size=n_rdm))
+        picks[1] = picks[0]
+        if len(set(picks)) == 1:
+            picks[-1] = (picks[0] + 1) % n_rdm
+    return dict(n_cond=n_cond, data=data, models=models, method=method, picks=picks)
 
 
 def check_fixed(case):
     data = RDMs(np.array(case['data'], dtype=float))
+    if case.get('picks'):
+        data = lib(data.subsample, 'index', list(case['picks']))
+        require(data.n_rdm == len(case['picks']), 'subsample size', 'harness')
     models = [ModelFixed('m%d' % k, np.array(v, dtype=float)) for k, v in enumerate(case['models'])]
     m = len(models)
     res = lib(eval_fixed, models, data, method=case['method'], on_error='violation',
@@ -314,7 +325,8 @@ def check_fixed(case):
 def classify_fixed(case):
     m, n = len(case['models']), len(case['data'])
     labels = ['fixed:method:' + case['method'], 'fixed:models=%d' % m,
-              'fixed:n_rdm<=3' if n <= 3 else 'fixed:n_rdm>3']
+              'fixed:n_rdm<=3' if n <= 3 else 'fixed:n_rdm>3',
+              'fixed:data:' + ('resampled-object' if case.get('picks') else 'fresh')]
     return labels, m >= 2
 
 
